@@ -372,6 +372,18 @@ class ASTRewriter(ast.NodeTransformer):
             return arg.value.elts
         elif isinstance(arg, ast.Subscript) and isinstance(arg.value, ast.Name):
             _sval = self.env.get_type(arg.value.id)
+
+            # An element of a constant table (which is a tuple itself)
+            _cval = self.env.get_constant(arg.value.id)
+            if (
+                isinstance(_cval, ast.Tuple)
+                and isinstance(arg.slice, ast.Constant)
+                and isinstance(arg.slice.value, int)
+                and arg.slice.value < len(_cval.elts)
+                and isinstance(_cval.elts[arg.slice.value], ast.Tuple)
+            ):
+                return _cval.elts[arg.slice.value].elts
+
             if (
                 isinstance(_sval, ast.Subscript)
                 and isinstance(_sval.slice, ast.Tuple)
